@@ -543,6 +543,14 @@ def clause_absolute_mask(ctx):
             elif t in (f"{rx}[0]=={rx}[1]", f"{rx}[1]=={rx}[0]",
                        "self.range_x[0]==self.range_x[1]"):
                 zw = pol
+            elif "isclose" in t or "allclose" in t:
+                ctx.fail(test, f"zero-width test {norm(test)[:50]}",
+                         "the zero-width test of the absolute range uses a "
+                         "tolerance: abscissae are in metres, so every "
+                         "interval narrower than numpy's absolute tolerance "
+                         "(1e-8 m) is treated as 'whole segment' instead of "
+                         "selecting exactly the points inside it")
+                zw = pol if "not" not in t[:4] else (not pol)
             else:
                 raise Undecided("unrecognised condition in the absolute "
                                 f"branch: {norm(test)}")
